@@ -30,7 +30,8 @@ ASSUMPTIONS = [
 ]
 FLOORS = {'if_cases': 500, 'poisoned_unselected': 200, 'andor_cases': 500,
           'not_cases': 50, 'spy_calls': 1000, 'omitted_else': 20,
-          'reassigned_cases': 100, 'foreign_namespace_evaluations': 10}
+          'reassigned_cases': 100, 'foreign_namespace_evaluations': 10,
+          'long_range_cases': 32}
 ANCHOR_FUNCS = {
     'xlcalculator/xlfunctions/logical.py': ['IF', 'AND', 'OR', 'NOT'],
     'xlcalculator/ast_nodes.py': ['FunctionNode.eval'],
@@ -499,6 +500,48 @@ def run(ctx):
     flush()
     if ctx.shard % 2 == 1:
         foreign_namespace()
+
+    # ---- long ranges: the deciding element comes after more than 100 elements
+    # that are FALSE / 0 (values, not blanks) --------------------------------
+    if ctx.shard in (2, 3) or thorough:
+        for filler, decider in ((False, True), (0, 1), (0, True),
+                                (False, 5)):
+            cells = {}
+            for r in range(1, 251):
+                cells[f'A{r}'] = filler                 # a column of 250
+            cells['A250'] = decider
+            for c in range(1, 151):
+                cells[f'{ref.col_letters(c + 2)}1'] = filler   # a row of 150
+            cells[f'{ref.col_letters(152)}1'] = decider
+            for r in range(3, 6):
+                for c in range(3, 123):
+                    cells[f'{ref.col_letters(c)}{r}'] = filler  # 3 x 120
+            cells[f'{ref.col_letters(122)}5'] = decider
+            row_rg = f'C1:{ref.col_letters(152)}1'
+            blk_rg = f'C3:{ref.col_letters(122)}5'
+            probes = {
+                '=OR(A1:A250)': True, '=OR(A1:A249)': False,
+                f'=OR({row_rg})': True, f'=OR({blk_rg})': True,
+                '=NOT(OR(A1:A250))': False,
+                f'=IF(OR({row_rg}),"hit","miss")': 'hit',
+                '=AND(OR(A1:A250),TRUE)': True,
+                f'=OR(FALSE,{blk_rg},FALSE)': True,
+            }
+            outs = subject.eval_batch(list(probes), cells)
+            for (text, want), got in zip(probes.items(), outs):
+                ctx.event('long_range_cases')
+                ctx.event('andor_cases')
+                ctx.case(('long-range', text, repr(filler)))
+                wn = ('bool', want) if isinstance(want, bool) else \
+                    ('text', want)
+                if got != ('value', wn):
+                    ctx.fail(f'{text} over {250 if "A1" in text else 150}+ '
+                             f'cells holding {filler!r} with {decider!r} at '
+                             f'the end: observed {got}, expected {want}',
+                             {'formula': text, 'filler': repr(filler),
+                              'decider': repr(decider), 'observed': got},
+                             monitor='lazy-selection',
+                             group=f'long-range:{filler!r}')
 
     # ---- sampled ---------------------------------------------------------------
     for i in range(n_formulas):
